@@ -306,18 +306,18 @@ fn check_words(rng: &mut Rng, case: &mut Case) -> Outcome {
 
 pub fn run(ctx: &Ctx) {
     let t = ctx.tier;
-    ctx.run_sub("programs-nojets", Plan::sample(t.pick(12_000, 600_000), 0.35), |rng, case| {
+    ctx.run_sub("programs-nojets", Plan::sample(t.pick(100_000, 600_000), 0.35), |rng, case| {
         let fuel = rng.urange(2, 14);
         check_program(rng, case, Family::None, fuel)
     });
-    ctx.run_sub("programs-core", Plan::sample(t.pick(10_000, 500_000), 0.3), |rng, case| {
+    ctx.run_sub("programs-core", Plan::sample(t.pick(80_000, 500_000), 0.3), |rng, case| {
         let fuel = rng.urange(2, 14);
         check_program(rng, case, Family::Core, fuel)
     });
-    ctx.run_sub("programs-elements", Plan::sample(t.pick(8_000, 400_000), 0.2), |rng, case| {
+    ctx.run_sub("programs-elements", Plan::sample(t.pick(60_000, 400_000), 0.2), |rng, case| {
         let fuel = rng.urange(2, 12);
         check_program(rng, case, Family::Elements, fuel)
     });
-    ctx.run_sub("words", Plan::sample(t.pick(4_000, 100_000), 0.1), check_words);
+    ctx.run_sub("words", Plan::sample(t.pick(30_000, 100_000), 0.1), check_words);
     let _ = TyParams::small();
 }
